@@ -14,7 +14,13 @@ use std::collections::BTreeSet;
 
 fn dim(r: &mut Rng, limit: usize, p_boundary: f64) -> usize {
     if r.chance(p_boundary) {
-        *r.pick(&[0, 1, limit - 1, limit, limit + 1])
+        if r.chance(0.2) {
+            // somewhere in between (batch / chunk sizes a validator might use internally)
+            let mid: Vec<usize> = [16usize, 17, 63, 64, 65, 127, 128, 129, 255, 256, 257, 512, 513, 4096, 4097].into_iter().filter(|m| *m < limit).collect();
+            *r.pick(&mid)
+        } else {
+            *r.pick(&[0, 1, limit - 1, limit, limit + 1])
+        }
     } else {
         r.below(4)
     }
